@@ -43,7 +43,10 @@ Theorem handler_roundtrip_as ks ks' tape x sb before after :
   exists v, encrypt_with_handler C ENVELOPE_ID_ACRASTRUCT ks tape x = Ok v /\
             decrypt_with_handler C ENVELOPE_ID_ACRASTRUCT ks' v = Ok x /\
             registry_process C ks' v = Ok x /\
-            (forall id' ks2 tape2, encrypt_with_handler C id' ks2 tape2 v = Ok v).
+            (forall id' ks2 tape2, encrypt_with_handler C id' ks2 tape2 v = Ok v) /\
+            exists inner, v = sc_layout inner ENVELOPE_ID_ACRASTRUCT /\ inner <> [] /\
+              (N.of_nat (length inner) < 4294967296)%N /\ handler_match ENVELOPE_ID_ACRASTRUCT inner = true /\
+              handler_decrypt C ENVELOPE_ID_ACRASTRUCT ks' inner = Ok x /\ length x < length inner.
 Proof.
   intros Hnp Hx Hlen Htape Hsb Hpub Hprivs Hbefore.
   destruct (as_roundtrip C HC tape x sb [] Htape Hsb Hx Hlen) as (inner & Hc & Hval & Hil & Hdec).
@@ -64,12 +67,16 @@ Proof.
     unfold handler_match, handler_decrypt. rewrite byte_eqb_refl, Hval. cbn [negb].
     rewrite Hprivs. rewrite is_nil_false by (destruct before; discriminate).
     apply as_rotated_roundtrip; [exact Hdec| apply Hbefore]. }
-  split; [exact Henc|]. split; [exact Hdw|]. split.
+  split; [exact Henc|]. split; [exact Hdw|]. split; [|split].
   - unfold registry_process.
     rewrite (app_nil_r' (sc_layout inner ENVELOPE_ID_ACRASTRUCT)) at 1.
     rewrite envelope_kind_layout by (assumption || reflexivity). exact Hdw.
   - intros id' ks2 tape2. apply passthrough.
     apply container_looks_protected; try assumption; try reflexivity.
+  - exists inner. split; [reflexivity|]. split; [exact Hine|]. split; [exact Hismall|].
+    split; [unfold handler_match; rewrite byte_eqb_refl; exact Hval|]. split; [|rewrite Hil; unfold_consts; lia].
+    unfold decrypt_with_handler in Hdw. rewrite Hd in Hdw. cbn [bind] in Hdw.
+    unfold handler_match in Hdw. rewrite byte_eqb_refl, Hval in Hdw. exact Hdw.
 Qed.
 
 (** ** symmetric envelope *)
@@ -83,7 +90,10 @@ Theorem handler_roundtrip_ab ks ks' tape x key rest before after :
   exists v, encrypt_with_handler C ENVELOPE_ID_ACRABLOCK ks tape x = Ok v /\
             decrypt_with_handler C ENVELOPE_ID_ACRABLOCK ks' v = Ok x /\
             registry_process C ks' v = Ok x /\
-            (forall id' ks2 tape2, encrypt_with_handler C id' ks2 tape2 v = Ok v).
+            (forall id' ks2 tape2, encrypt_with_handler C id' ks2 tape2 v = Ok v) /\
+            exists inner, v = sc_layout inner ENVELOPE_ID_ACRABLOCK /\ inner <> [] /\
+              (N.of_nat (length inner) < 4294967296)%N /\ handler_match ENVELOPE_ID_ACRABLOCK inner = true /\
+              handler_decrypt C ENVELOPE_ID_ACRABLOCK ks' inner = Ok x /\ length x < length inner.
 Proof.
   intros Hnp Hx Hlen Htape Hkey Hsyms Hsyms' Hbefore.
   destruct (ab_roundtrip C HC tape x key [] Htape Hkey Hx Hlen) as (ek & ed & Hc & Hekl & Hedl & Hdec).
@@ -114,12 +124,16 @@ Proof.
     replace (ab_decrypt C inner (before ++ key :: after) []) with (@Ok bytes x)
       by (symmetry; apply Hdec, Hbefore).
     reflexivity. }
-  split; [exact Henc|]. split; [exact Hdw|]. split.
+  split; [exact Henc|]. split; [exact Hdw|]. split; [|split].
   - unfold registry_process.
     rewrite (app_nil_r' (sc_layout inner ENVELOPE_ID_ACRABLOCK)) at 1.
     rewrite envelope_kind_layout by (assumption || reflexivity). exact Hdw.
   - intros id' ks2 tape2. apply passthrough.
     apply container_looks_protected; try assumption; reflexivity.
+  - exists inner. split; [reflexivity|]. split; [exact Hine|]. split; [exact Hismall|].
+    split; [exact Hm|]. split; [|rewrite Hil, Hedl; unfold_consts; lia].
+    unfold decrypt_with_handler in Hdw. rewrite Hd in Hdw. cbn [bind] in Hdw.
+    rewrite Hm in Hdw. exact Hdw.
 Qed.
 
 (** empty plaintext cannot be protected (Secure Cell rejects an empty message) *)
